@@ -30,7 +30,7 @@ func C07(c *Ctx, r *report.Run) error {
 	r.Rule = "for every RPC of the REST/query/path-kind/header/multi-service/codec units: (a) every 200 response body the generated Go server produces for the enumerated response values, (b) every enumerated request value in contract form, (c) every object the emitted TS server passed to its handler (Go client -> TS server and TS client -> TS server runs of C08) is checked for membership in the TypeScript type the emitted modules declare for that message (M-ts: parser for the emitted declaration subset; value in type with excess-property rejection, unions/intersections by disjunctive normal form); (d) ts-client and ts-server must declare identical types for every message; distinct = (unit, rpc, source, outcome)"
 	var specs []*spec.Spec
 	for _, s := range serviceSpecs(c) {
-		if !hasTag(s, "ctx") && !hasTag(s, "rules") && !hasTag(s, "mock") && len(s.Files) == 1 && !hasTag(s, "serveronly") {
+		if !hasTag(s, "ctx") && !hasTag(s, "rules") && !hasTag(s, "mock") && oneServiceFile(s) && !hasTag(s, "genonly") && !hasTag(s, "serveronly") {
 			specs = append(specs, s)
 		}
 	}
